@@ -9,6 +9,8 @@ use rotov_harness::driver::{Driver, hex};
 use rotov_harness::{Prng, Report};
 use serde_json::{Value, json};
 use std::sync::Mutex;
+use std::net::IpAddr;
+use inetnum::{addr::Prefix, asn::Asn};
 
 // ------------------------------------------------------------ host side
 
@@ -70,6 +72,18 @@ pub fn runtime() -> Runtime<NoCtx> {
         fn emit_str(v: RotoString) { log(format!("s:{}", hex(&v.to_string()))) }
         /// emit
         fn emit_unit() { log("u".to_string()) }
+        /// emit
+        fn emit_f32(v: f32) { log(format!("o:{}", hex(&format!("{v}")))) }
+        /// emit
+        fn emit_f64(v: f64) { log(format!("o:{}", hex(&format!("{v}")))) }
+        /// emit
+        fn emit_char(v: char) { log(format!("o:{}", hex(&format!("{v}")))) }
+        /// emit
+        fn emit_asn(v: Asn) { log(format!("o:{}", hex(&format!("{v}")))) }
+        /// emit
+        fn emit_ip(v: IpAddr) { log(format!("o:{}", hex(&format!("{v}")))) }
+        /// emit
+        fn emit_prefix(v: Prefix) { log(format!("o:{}", hex(&format!("{v}")))) }
         /// emit the tag of an enum value
         fn emit_tag(v: u32) { log(format!("t:{v}")) }
         /// emit the length of a list
@@ -108,6 +122,8 @@ fn arg_val(a: &Args, i: usize) -> i128 {
 pub enum E {
     Lit(i128),
     BLit(bool),
+    /// opaque literal: (source text, text the host prints for it)
+    Opaque(&'static str, &'static str),
     Str(String),
     Unit,
     Arg(usize),
@@ -303,7 +319,7 @@ impl<'a> Gen<'a> {
     /// an expression of type `t`, sometimes routed through control flow, a
     /// block that mutates a local copy, or a callee that mutates its parameter
     fn build(&mut self, t: &T, depth: u32) -> E {
-        let aggregate = !matches!(t, T::Bool | T::Int(..) | T::Unit | T::Str | T::Host(_));
+        let aggregate = !matches!(t, T::Bool | T::Int(..) | T::Unit | T::Str | T::Host(_) | T::F32 | T::F64 | T::Char | T::Asn | T::IpAddr | T::Prefix);
         if self.closed || !aggregate || depth == 0 || !self.p.chance(1, 6) {
             return self.build0(t, depth);
         }
@@ -394,6 +410,26 @@ impl<'a> Gen<'a> {
                 }
             }
             T::Unit => E::Unit,
+            T::F32 | T::F64 => {
+                let (a, b) = *self.p.pick(&[("1.5", "1.5"), ("0.0", "0"), ("-2.25", "-2.25"), ("1000000.0", "1000000")]);
+                E::Opaque(a, b)
+            }
+            T::Char => {
+                let (a, b) = *self.p.pick(&[("'a'", "a"), ("'Z'", "Z"), ("'é'", "é"), ("'0'", "0")]);
+                E::Opaque(a, b)
+            }
+            T::Asn => {
+                let (a, b) = *self.p.pick(&[("AS0", "AS0"), ("AS65000", "AS65000"), ("AS4294967295", "AS4294967295")]);
+                E::Opaque(a, b)
+            }
+            T::IpAddr => {
+                let (a, b) = *self.p.pick(&[("1.2.3.4", "1.2.3.4"), ("::1", "::1"), ("255.255.255.255", "255.255.255.255"), ("2001:db8::1", "2001:db8::1")]);
+                E::Opaque(a, b)
+            }
+            T::Prefix => {
+                let (a, b) = *self.p.pick(&[("10.0.0.0 / 8", "10.0.0.0/8"), ("0.0.0.0 / 0", "0.0.0.0/0"), ("2001:db8:: / 32", "2001:db8::/32")]);
+                E::Opaque(a, b)
+            }
             T::Host("Big") => {
                 let inner = self.build(&T::Int(false, 32), 0);
                 self.kinds.insert("host-clone-type");
@@ -460,7 +496,7 @@ impl<'a> Gen<'a> {
             } else {
                 gen_type(self.p, &self.env, 2, false, &o)
             };
-            if !matches!(t, T::Bool | T::Int(..) | T::Unit) {
+            if !matches!(t, T::Bool | T::Int(..) | T::Unit | T::F32 | T::F64 | T::Char | T::Asn) {
                 return t;
             }
         }
@@ -785,6 +821,7 @@ impl Src<'_> {
         match e {
             E::Lit(v) => lit_src(*v, ty),
             E::BLit(b) => b.to_string(),
+            E::Opaque(src, _) => format!("({src})"),
             E::Str(s) => format!("{s:?}"),
             E::Unit => "()".into(),
             E::Arg(i) => format!("p{i}"),
@@ -826,6 +863,12 @@ impl Src<'_> {
             T::Bool => *out += &format!("{ind}emit_bool({e});\n"),
             T::Int(s, b) => *out += &format!("{ind}emit_{}{b}({e});\n", if *s { "i" } else { "u" }),
             T::Str => *out += &format!("{ind}emit_str({e});\n"),
+            T::F32 => *out += &format!("{ind}emit_f32({e});\n"),
+            T::F64 => *out += &format!("{ind}emit_f64({e});\n"),
+            T::Char => *out += &format!("{ind}emit_char({e});\n"),
+            T::Asn => *out += &format!("{ind}emit_asn({e});\n"),
+            T::IpAddr => *out += &format!("{ind}emit_ip({e});\n"),
+            T::Prefix => *out += &format!("{ind}emit_prefix({e});\n"),
             T::Host("Big") => *out += &format!("{ind}emit_big({e});\n"),
             T::Host(_) => *out += &format!("{ind}emit_pt({e});\n"),
             T::Unit => *out += &format!("{ind}emit_unit();\n"),
@@ -907,7 +950,7 @@ impl Src<'_> {
                 S::Emit(e, t) => {
                     let es = self.e(e, Some(t));
                     // bind once so that the emitted expression is evaluated once
-                    if matches!(e, E::Var(_) | E::Lit(_)) || matches!(t, T::Bool | T::Int(..) | T::Str | T::Unit | T::Host(_)) {
+                    if matches!(e, E::Var(_) | E::Lit(_)) || matches!(t, T::Bool | T::Int(..) | T::Str | T::Unit | T::Host(_) | T::F32 | T::F64 | T::Char | T::Asn | T::IpAddr | T::Prefix) {
                         self.emit(&es, t, ind, out);
                     } else {
                         self.fresh += 1;
@@ -959,6 +1002,7 @@ fn spec_e(e: &E, args: &Args, out: &mut Vec<String>) {
     match e {
         E::Lit(v) => out.extend(["L".into(), v.to_string()]),
         E::BLit(b) => out.extend(["L".into(), (*b as u8).to_string()]),
+        E::Opaque(_, shown) => out.extend(["O".into(), hex(shown)]),
         E::Str(s) => out.extend(["S".into(), if s.is_empty() { "-".into() } else { hex(s) }]),
         E::Unit => out.push("U".into()),
         E::Arg(i) => out.extend(["L".into(), arg_val(args, *i).to_string()]),
